@@ -116,6 +116,19 @@ Theorem C02_attr_sync : forall (h : list assign) (s : exc),
   exc_sync mu0 s -> exc_sync mu0 (exc_run mu0 mu0 s h).
 Proof. exact (exc_run_sync Fth mu0 mu0_nz). Qed.
 
+(* getBH_level1 returns orientation.apply(wrapper output): for EVERY 3x3 matrix m the property survives the pose, and
+   J reports the polarization expressed in the observer frame (m applied to pol); the observer transformation only
+   selects which local row the wrapper sees *)
+Theorem C02_level1_magnet : forall (m : mat) (local : fld -> vec) (pol : vec) (inside : bool),
+  magnet (local FB) (local FH) (local FJ) (local FM) pol inside ->
+  magnet (level1 m local FB) (level1 m local FH) (level1 m local FJ) (level1 m local FM) (mapply m pol) inside.
+Proof. exact (level1_magnet Fth mu0). Qed.
+
+Theorem C02_level1_current : forall (m : mat) (local : fld -> vec),
+  current (local FB) (local FH) (local FJ) (local FM) ->
+  current (level1 m local FB) (level1 m local FH) (level1 m local FJ) (level1 m local FM).
+Proof. exact (level1_current Fth mu0). Qed.
+
 End AnyField.
 
 Print Assumptions C02_cuboid.
@@ -134,6 +147,8 @@ Print Assumptions C02_polyline.
 Print Assumptions C02_polyline_batch_is_rowwise.
 Print Assumptions C02_dipole.
 Print Assumptions C02_attr_sync.
+Print Assumptions C02_level1_magnet.
+Print Assumptions C02_level1_current.
 
 (* the grouping loop of BHJM_magnet_trimesh (in_out = "auto", after commit 8fe828e), for ALL lists of meshes and any
    reflexive mesh comparison: every row i is visited, and the mesh its inside test (msh_ins, hence J = pol <-> ...)
